@@ -12,14 +12,17 @@ fn tally(value: Value) -> Resolved {
             return Err(format!("all values must be strings, found: {value:?}").into());
         }
     }
-    let map: BTreeMap<_, _> = map
+    // Distinct byte strings can become the same key once invalid UTF-8 is replaced: add their
+    // counts up, instead of keeping whichever the hash map happens to yield last.
+    let mut counts: BTreeMap<KeyString, usize> = BTreeMap::new();
+    for (k, v) in map {
+        let key: KeyString = String::from_utf8_lossy(&k).into_owned().into();
+        let count = counts.entry(key).or_insert(0);
+        *count = count.saturating_add(v);
+    }
+    let map: BTreeMap<_, _> = counts
         .into_iter()
-        .map(|(k, v)| {
-            (
-                String::from_utf8_lossy(&k).into_owned().into(),
-                Value::from(v),
-            )
-        })
+        .map(|(k, v)| (k, Value::from(v)))
         .collect();
     Ok(map.into())
 }
